@@ -15,9 +15,16 @@ evaluated": every tuple `σ` of the natural join of the operand tables gets its 
                       `aggregate_open`, `aggregate_open_of_inUnit`);
 * `downward_value`    after `fDownConn kb i idx s` (`idx = none`, or `idx = some k` for operand `k`)
                       operand `k`'s row at its projection of `σ` is AT LEAST AS TIGHT as
-                      `aggregate .both (its reading before) (the k-th component of fActDown)`;
+                      `aggregate .both (its reading before) (the k-th component of fActDown)`
+                      (`downward_value_core`: any branch of the grounding management);
 * `downward_frame`    a row of an operand table onto which no operator grounding projects keeps
                       its reading.
+
+No range hypothesis (`WorldsInUnit`, `InUnit`) is needed anywhere: `aggregate` clamps, so a write
+onto stored bounds outside `[0,1]` need not tighten them, but it does after clamping (`CT`,
+`writeMerged_tct`), and the aggregate in the statements only sees the previous bounds through the
+clamp (`aggregate_mono_ct`). This matters when one formula occupies several operand positions: its
+table is then written several times in one `fDownConn`.
 
 Equality in `upward_value` does NOT need the operator groundings to be listed without duplicates:
 when the variable maps only name slots below `numVars` (`slots_lt_of_covered`: this follows from
@@ -26,7 +33,6 @@ hence carry the same proposal, and a repeated aggregation of the same proposal i
 (`Join.aggregate_idem`).
 -/
 import LnnVerif.Props.C09
-import LnnVerif.Lemmas.FolMono
 import LnnVerif.Lemmas.FolAmount
 import Mathlib.Data.List.Perm.Subperm
 
@@ -466,7 +472,8 @@ theorem writeMerged_hits (t : Table α) (props : List (Gr × Bounds α)) (g : Gr
   obtain ⟨_, _, f1⟩ := FolAmount.foldl_wmStep_spec t props l1 hn1 (t, 0) (fun _ _ => rfl)
   have e1 : Table.find? (l1.foldl (FolAmount.wmStep t props) (t, 0)).1 g = some r := by
     rw [f1 g hg1]; exact hr
-  obtain ⟨m, hm, hstep⟩ := wmStep_hits t props (l1.foldl (FolAmount.wmStep t props) (t, 0)) g b r hr hp
+  obtain ⟨m, hm, hmu, hstep⟩ :=
+    wmStep_hits t props (l1.foldl (FolAmount.wmStep t props) (t, 0)) g b r hr hp
   have e2 : Table.find? (FolAmount.wmStep t props (l1.foldl (FolAmount.wmStep t props) (t, 0)) g).1 g
       = some { r with b := m } := by
     rw [hstep, Table.find?_setB_self, e1]; rfl
@@ -478,33 +485,118 @@ theorem writeMerged_hits (t : Table α) (props : List (Gr × Bounds α)) (g : Gr
     have hnot1 : g' ∉ l1 := fun h => hdis g' h g' (List.mem_cons_of_mem _ hg') rfl
     rw [hstep, Table.find?_setB_of_ne _ _ hne, f1 g' hnot1]
   obtain ⟨_, _, f2⟩ := FolAmount.foldl_wmStep_spec t props l2 hn2.2 _ hfind2
-  exact ⟨{ r with b := m }, by rw [f2 g hn2.1]; exact e2, hm⟩
+  exact ⟨{ r with b := m }, by rw [f2 g hn2.1]; exact e2, hm, hmu⟩
 
-/-! ### the downward pass: every write only tightens, the write of operand `k` hits -/
+/-! ### tightening after clamping: what every merged write guarantees WITHOUT range hypotheses -/
 
-theorem dStep_tightens (idx : Option Nat) (items : List (List Gr × List (Bounds α)))
-    {s0 : FState ι α} (acc : FState ι α × α) (p : Nat × ι)
-    (h : FState.Tightens s0 acc.1 ∧ FState.InUnit acc.1) :
-    FState.Tightens s0 (dStep idx items acc p).1 ∧ FState.InUnit (dStep idx items acc p).1 := by
+/-- `y` is at least as tight as `x` once both are clamped to `[0,1]`, and in range if `x` was.
+(`aggregate` clamps, so a write onto bounds outside `[0,1]` may "loosen" them — but never after
+clamping, and a written row is in range.) -/
+def CT (x y : Bounds α) : Prop :=
+  clamp01 x.lo ≤ clamp01 y.lo ∧ clamp01 y.hi ≤ clamp01 x.hi ∧ (InUnit x → InUnit y)
+
+theorem CT.refl (x : Bounds α) : CT x x := ⟨le_rfl, le_rfl, id⟩
+
+theorem CT.trans {x y z : Bounds α} (h1 : CT x y) (h2 : CT y z) : CT x z :=
+  ⟨le_trans h1.1 h2.1, le_trans h2.2.1 h1.2.1, fun h => h2.2.2 (h1.2.2 h)⟩
+
+/-- on bounds in range, tightening after clamping is tightening -/
+theorem CT.btight {x y : Bounds α} (h : CT x y) (hx : InUnit x) : FolAmount.BTight x y := by
+  obtain ⟨h1, h2, h3⟩ := h
+  have hy := h3 hx
+  rw [clamp01_of_mem hx.1 hx.2.1, clamp01_of_mem hy.1 hy.2.1] at h1
+  rw [clamp01_of_mem hy.2.2.1 hy.2.2.2, clamp01_of_mem hx.2.2.1 hx.2.2.2] at h2
+  exact ⟨h1, h2⟩
+
+/-- aggregation only sees the previous bounds through the clamp -/
+theorem aggregate_mono_ct {a a' : Bounds α} (h : CT a a') (p : Bounds α) :
+    FolAmount.BTight (aggregate .both a p).1 (aggregate .both a' p).1 := by
+  simp only [aggregate, reduceCtorEq, if_false]
+  refine ⟨?_, ?_⟩
+  · rw [Join.clamp01_monotone.map_max, Join.clamp01_monotone.map_max]
+    exact max_le_max h.1 le_rfl
+  · rw [Join.clamp01_monotone.map_min, Join.clamp01_monotone.map_min]
+    exact min_le_min h.2.1 le_rfl
+
+theorem ct_merged (r c : Bounds α) (cs : List (Bounds α))
+    (hx : ∀ x ∈ c :: cs, ∃ p, x = (aggregate .both r p).1) : CT r (cs.foldl mergeB c) := by
+  have hm := (FolAmount.merged_ok r c cs hx).1
+  have hc := btight_foldl_mergeB cs c c (List.mem_cons_self ..)
+  obtain ⟨p, hp⟩ := hx c (List.mem_cons_self ..)
+  have hclo : clamp01 r.lo ≤ c.lo := by
+    rw [hp]
+    simp only [aggregate, reduceCtorEq, if_false]
+    exact clamp01_mono (le_max_left _ _)
+  have hchi : c.hi ≤ clamp01 r.hi := by
+    rw [hp]
+    simp only [aggregate, reduceCtorEq, if_false]
+    exact clamp01_mono (min_le_left _ _)
+  refine ⟨?_, ?_, fun _ => hm⟩
+  · rw [clamp01_of_mem hm.1 hm.2.1]; exact le_trans hclo hc.1
+  · rw [clamp01_of_mem hm.2.2.1 hm.2.2.2]; exact le_trans hc.2 hchi
+
+/-- every stored row stays stored and `CT`-tightens -/
+def TCT (t t' : Table α) : Prop :=
+  ∀ g r, Table.find? t g = some r → ∃ r', Table.find? t' g = some r' ∧ CT r.b r'.b
+
+theorem TCT.refl (t : Table α) : TCT t t := fun _ r h => ⟨r, h, CT.refl _⟩
+
+theorem TCT.trans {t u v : Table α} (h1 : TCT t u) (h2 : TCT u v) : TCT t v := by
+  intro g r hr
+  obtain ⟨r1, hr1, c1⟩ := h1 g r hr
+  obtain ⟨r2, hr2, c2⟩ := h2 g r1 hr1
+  exact ⟨r2, hr2, c1.trans c2⟩
+
+/-- the merged write, any proposals, any table: no range hypothesis -/
+theorem writeMerged_tct (t : Table α) (props : List (Gr × Bounds α)) :
+    TCT t (writeMerged t props).1 := by
+  apply Table.writeMerged_induct' t props (fun acc => TCT t acc) _ (TCT.refl t)
+  intro acc g r c cs ha hr hx g' r0 hr0
+  obtain ⟨r', hr', hct⟩ := ha g' r0 hr0
+  by_cases e : g' = g
+  · rw [e] at hr0 hr' ⊢
+    rw [hr] at hr0
+    cases hr0
+    exact ⟨{ r' with b := cs.foldl mergeB c }, by rw [Table.find?_setB_self, hr']; rfl,
+      ct_merged _ c cs hx⟩
+  · exact ⟨r', by rw [Table.find?_setB_of_ne _ _ e]; exact hr', hct⟩
+
+def SCT (s s' : FState ι α) : Prop := ∀ j, TCT (s.get j) (s'.get j)
+
+theorem SCT.refl (s : FState ι α) : SCT s s := fun _ => TCT.refl _
+
+theorem SCT.trans {s t u : FState ι α} (h1 : SCT s t) (h2 : SCT t u) : SCT s u :=
+  fun j => (h1 j).trans (h2 j)
+
+/-! ### the downward pass: every write `CT`-tightens, the write of operand `k` hits -/
+
+theorem dStep_sct (idx : Option Nat) (items : List (List Gr × List (Bounds α)))
+    (acc : FState ι α × α) (p : Nat × ι) : SCT acc.1 (dStep idx items acc p).1 := by
   unfold dStep
   split
-  · exact FState.tightens_set h _ _ (writeMerged_tightens _ _ (h.2 _))
-  · exact h
+  · intro j
+    by_cases e : j = p.2
+    · rw [e]
+      simp only
+      rw [FState.get_set_self]
+      exact writeMerged_tct _ _
+    · simp only
+      rw [FState.get_set_of_ne _ _ e]
+      exact TCT.refl _
+  · exact SCT.refl _
 
-theorem foldl_dStep_tightens (idx : Option Nat) (items : List (List Gr × List (Bounds α)))
-    {s0 : FState ι α} (l : List (Nat × ι)) (acc : FState ι α × α)
-    (h : FState.Tightens s0 acc.1 ∧ FState.InUnit acc.1) :
-    FState.Tightens s0 (l.foldl (dStep idx items) acc).1 ∧
-      FState.InUnit (l.foldl (dStep idx items) acc).1 :=
-  FolSound.foldl_inv (fun acc : FState ι α × α => FState.Tightens s0 acc.1 ∧ FState.InUnit acc.1)
-    _ _ _ h (fun acc hacc p _ => dStep_tightens idx items acc p hacc)
+theorem foldl_dStep_sct (idx : Option Nat) (items : List (List Gr × List (Bounds α))) :
+    ∀ (l : List (Nat × ι)) (acc : FState ι α × α), SCT acc.1 (l.foldl (dStep idx items) acc).1
+  | [], acc => SCT.refl _
+  | x :: l, acc => by
+    rw [List.foldl_cons]
+    exact (dStep_sct idx items acc x).trans (foldl_dStep_sct idx items l _)
 
 theorem foldl_dStep_hits (idx : Option Nat) (items : List (List Gr × List (Bounds α)))
     (s1 : FState ι α) (k : Nat) (j : ι) (g : Gr) (b : Bounds α) (r1 : Row α)
     (hr1 : Table.find? (s1.get j) g = some r1) (hp : (g, b) ∈ dProps items k)
     (hidx : idx = none ∨ idx = some k) :
-    ∀ (l : List (Nat × ι)) (acc : FState ι α × α), (k, j) ∈ l →
-      FState.Tightens s1 acc.1 ∧ FState.InUnit acc.1 →
+    ∀ (l : List (Nat × ι)) (acc : FState ι α × α), (k, j) ∈ l → SCT s1 acc.1 →
       ∃ r', Table.find? ((l.foldl (dStep idx items) acc).1.get j) g = some r' ∧
         FolAmount.BTight (aggregate .both r1.b b).1 r'.b
   | [], _, hmem, _ => by cases hmem
@@ -512,35 +604,30 @@ theorem foldl_dStep_hits (idx : Option Nat) (items : List (List Gr × List (Boun
     rw [List.foldl_cons]
     by_cases hx : x = (k, j)
     · subst hx
-      obtain ⟨r, hr, hlo, hhi, _⟩ := hacc.1 j g r1 hr1
-      obtain ⟨r2, hr2, ht2⟩ := writeMerged_hits (acc.1.get j) (dProps items k) g b r hr hp
+      obtain ⟨r, hr, hct⟩ := hacc j g r1 hr1
+      obtain ⟨r2, hr2, ht2, hu2⟩ := writeMerged_hits (acc.1.get j) (dProps items k) g b r hr hp
       have hstep : (dStep idx items acc (k, j)).1 =
           acc.1.set j (writeMerged (acc.1.get j) (dProps items k)).1 := by
         unfold dStep
         rw [if_pos hidx]
       have hr2' : Table.find? ((dStep idx items acc (k, j)).1.get j) g = some r2 := by
         rw [hstep, FState.get_set_self]; exact hr2
-      have hP2 := dStep_tightens idx items acc (k, j) hacc
-      obtain ⟨hT, _⟩ := foldl_dStep_tightens idx items (s0 := (dStep idx items acc (k, j)).1) l
-        (dStep idx items acc (k, j)) ⟨FState.Tightens.refl _, hP2.2⟩
-      obtain ⟨r', hr', hlo', hhi', _⟩ := hT j g r2 hr2'
-      refine ⟨r', hr', ?_⟩
-      exact ((aggregate_mono_prev (show FolAmount.BTight r1.b r.b from ⟨hlo, hhi⟩) b).trans ht2).trans
-        ⟨hlo', hhi'⟩
+      obtain ⟨r', hr', hct'⟩ :=
+        foldl_dStep_sct idx items l (dStep idx items acc (k, j)) j g r2 hr2'
+      exact ⟨r', hr', ((aggregate_mono_ct hct b).trans ht2).trans (hct'.btight hu2)⟩
     · have hmem' : (k, j) ∈ l := by
         rcases List.mem_cons.mp hmem with e | e
         · exact absurd e.symm hx
         · exact e
       exact foldl_dStep_hits idx items s1 k j g b r1 hr1 hp hidx l _ hmem'
-        (dStep_tightens idx items acc x hacc)
+        (hacc.trans (dStep_sct idx items acc x))
 
 /-- DOWNWARD VALUE, generic form. `k0` is an index of an operator grounding returned by grounding
 management; neither of its first two operand readings nor its own reading is a contradiction.
 Then operand `k`'s row at the `k`-th operand grounding of `k0` is, after `fDownConn`, at least as
 tight as the `k`-th downward proposal aggregated onto what the row read before. -/
 theorem downward_value_core (kb : FKB ι α) (i : ι) (idx : Option Nat) (s : FState ι α)
-    (hw : WorldsInUnit kb) (hs : FState.InUnit s) {s1 : FState ι α}
-    {ogs : List Gr} {per : List (List Gr)}
+    {s1 : FState ι α} {ogs : List Gr} {per : List (List Gr)}
     (hG : groundings kb i true s = (s1, some (ogs, per)))
     (k0 : Nat) (hk0 : k0 < ogs.length)
     (hnc : ((List.zipWith (fun j g' => Table.getD (kb j).world (s.get j) g') (kb i).ops
@@ -560,10 +647,7 @@ theorem downward_value_core (kb : FKB ι α) (i : ι) (idx : Option Nat) (s : FS
     have := FolSound.groundings_reads kb i true s j g
     rw [hG] at this
     exact this
-  have hP1 : FState.Tightens s1 s1 ∧ FState.InUnit s1 := by
-    have := groundings_tightens kb hw i true s hs
-    rw [hG] at this
-    exact ⟨FState.Tightens.refl _, this.2⟩
+  have hP1 : SCT s1 s1 := SCT.refl s1
   -- the item of `k0`
   have hitem : dItemOf kb i s1 (ogs.getD k0 []) (rowsOf per k0) = some (rowsOf per k0,
       fActDown (kb i) (Table.getD (kb i).world (s.get i) (ogs.getD k0 []))
@@ -599,7 +683,6 @@ projection `m.map σ` is at least as tight as the `k`-th downward proposal aggre
 row read before. (Several operator groundings can project onto the same operand row; their
 proposals are merged by `(max L, min U)`, so "at least as tight as each" is what holds.) -/
 theorem downward_value (kb : FKB ι α) (i : ι) (idx : Option Nat) (s : FState ι α) (σ : Nat → Nat)
-    (hw : WorldsInUnit kb) (hs : FState.InUnit s)
     (hh : isHomogeneous (kb i) = false) (hc : SlotsCovered (kb i)) (hσ : InNatJoin kb i s σ)
     (hnc : ((opReads kb i s σ).take 2).any (isContra (kb i).alpha) = false)
     (hno : isContra (kb i).alpha (Table.getD (kb i).world (s.get i) (opGr kb i σ)) = false)
@@ -618,7 +701,7 @@ theorem downward_value (kb : FKB ι α) (i : ι) (idx : Option Nat) (s : FState 
     rw [hrows, List.zipWith_map_right]
     rfl
   have hog' : ogs.getD k0 [] = opGr kb i σ := hog
-  refine downward_value_core kb i idx s hw hs hG k0 hk0 (by rw [hz]; exact hnc)
+  refine downward_value_core kb i idx s hG k0 hk0 (by rw [hz]; exact hnc)
     (by rw [hog']; exact hno) k j (m.map σ) b hj ?_ ?_ (by rw [hz, hog']; exact hb) hidx
   · rw [hrows, List.getElem?_map, hm]
     rfl
@@ -684,18 +767,6 @@ section NonVacuity
 
 theorem c09_opGr : opGr c09KB 2 c09σ = [1, 2, 5] := by decide
 
-theorem c09_worlds : WorldsInUnit c09KB := by
-  intro i
-  unfold c09KB
-  split <;> norm_num
-
-theorem inUnit_of_tabs (s : FState ι α) (h : ∀ p ∈ s.tabs, Table.InUnit p.2) : FState.InUnit s := by
-  intro i
-  unfold FState.get
-  cases hf : s.tabs.find? (fun p => decide (p.1 = i)) with
-  | none => intro r hr; cases hr
-  | some p => exact h p (List.mem_of_find?_eq_some hf)
-
 /-! upward: `P(1,2)`, `Q(2,5)` TRUE, the conjunction has no row -/
 
 theorem c09_opReads : opReads c09KB 2 c09S c09σ = [⟨1, 1⟩, ⟨1, 1⟩] := by
@@ -734,10 +805,6 @@ def c09S' : FState Nat ℚ :=
   ⟨[(0, [⟨[1, 2], ⟨0, 1⟩, ⟨0, 1⟩⟩]), (1, [⟨[2, 5], ⟨1, 1⟩, ⟨1, 1⟩⟩]),
     (2, [⟨[1, 2, 5], ⟨1, 1⟩, ⟨1, 1⟩⟩])]⟩
 
-theorem c09S'_inUnit : FState.InUnit c09S' := by
-  apply inUnit_of_tabs
-  simp [c09S', Table.InUnit]
-
 theorem c09S'_natJoin : InNatJoin c09KB 2 c09S' c09σ := by
   unfold InNatJoin
   intro p j m hj hm
@@ -771,12 +838,36 @@ theorem c09'_fActDown : (fActDown (c09KB 2) ⟨1, 1⟩ [⟨0, 1⟩, ⟨1, 1⟩])
 at least as tight as TRUE — the lower bound has moved from 0 to 1 -/
 example (idx : Option Nat) (hidx : idx = none ∨ idx = some 0) :
     FolAmount.BTight ⟨1, 1⟩ (Table.getD ⟨0, 1⟩ ((fDownConn c09KB 2 idx c09S').1.get 0) [1, 2]) := by
-  have h := downward_value c09KB 2 idx c09S' c09σ c09_worlds c09S'_inUnit c09KB_hetero c09KB_covered
+  have h := downward_value c09KB 2 idx c09S' c09σ c09KB_hetero c09KB_covered
     c09S'_natJoin (by rw [c09'_opReads]; simp [isContra]) (by rw [c09'_self]; simp [isContra])
     0 0 [0, 1] ⟨1, 1⟩ rfl rfl (by rw [c09'_self, c09'_opReads]; exact c09'_fActDown) hidx
   have e : (aggregate BoundSel.both (Table.getD (c09KB 0).world (c09S'.get 0) ([0, 1].map c09σ))
       (⟨1, 1⟩ : Bounds ℚ)).1 = ⟨1, 1⟩ := by
     simp [c09S', c09σ, FState.get, Table.getD, Table.find?, aggregate, clamp01]
+  rw [e] at h
+  exact h
+
+theorem c09'_groundings :
+    (groundings c09KB 2 true c09S').2 = some ([[1, 2, 5]], [[[1, 2]], [[2, 5]]]) := by decide
+
+/-- the frame theorem instantiated: no operator grounding projects onto `P(7,7)`; it reads the
+world default before and after -/
+example (idx : Option Nat) :
+    Table.getD ⟨0, 1⟩ ((fDownConn c09KB 2 idx c09S').1.get 0) [7, 7] = ⟨0, 1⟩ := by
+  have h := downward_frame c09KB 2 idx c09S' 0 [7, 7] (by
+    intro ogs per hG p hp k hk
+    rw [c09'_groundings] at hG
+    cases hG
+    have hk0 : k = 0 := by simpa using hk
+    subst hk0
+    have ho : (c09KB 2).ops = [0, 1] := rfl
+    rw [ho] at hp
+    match p with
+    | 0 => decide
+    | 1 => simp at hp
+    | (p + 2) => simp at hp)
+  have e : Table.getD (c09KB 0).world (c09S'.get 0) [7, 7] = ⟨0, 1⟩ := by
+    simp [c09KB, c09S', FState.get, Table.getD, Table.find?]
   rw [e] at h
   exact h
 
